@@ -3,6 +3,7 @@ import TwistedProps.C02.Chain
 import TwistedProps.C02.Explicit
 import TwistedProps.C02.Inner
 import TwistedProps.C02.Inline
+import TwistedProps.C02.Plain
 /-!
 C02 — Deferred chaining depth never exhausts the stack.
 
@@ -224,6 +225,47 @@ theorem inline_prefired_depth_bounded (n extra : Nat) (fails : Nat → Bool) :
 
 /-- non-vacuity: four yields, the 2nd and 4th Deferred failed: depths 5, 6, 5, 6 then 3 (newest first) -/
 example : (exec 12 (prefiredHeap 4 (fun i => i % 2 = 1) false) (prefiredOps 4)).probes = [3, 6, 5, 6, 5] := by
+  decide +kernel
+
+/-- **Generator yielding `n` things that are not Deferreds** (`r = yield 5`; "things that are not
+    Deferreds may also be yielded, and your generator will be resumed with the same object sent
+    back").  `_inlineCallbacks` finds `isDeferred` false and goes round its `while 1:` again in the
+    same frame — it must not call itself.  For every `n`, fuel `n+9` or more: the call completes,
+    exactly `n` probes ran inside the generator, each at depth exactly 5, the returned Deferred
+    holds the return value and its own probe runs at depth 3.  (Mixtures of plain yields with
+    already-fired / unfired Deferreds are in the model and are tied to the implementation by the
+    correspondence check — families `genplain`, random programs —, but no theorem quantifies over
+    them: `inline_prefired_depth_bounded` is all-Deferreds, this one all-plain.) -/
+theorem inline_plain_yields_depth_bounded (n extra : Nat) :
+    let st := exec (extra + n + 9) (plainHeap n) plainOps
+    st.oof = false ∧ st.raised = 0 ∧ st.probes = 3 :: List.replicate n 5 ∧
+    (∀ p ∈ st.probes, p ≤ 5) ∧ st.get 0 = { called := true, result := .val 7 } := by
+  intro st
+  have e0 : extra + n + 9 = (extra + 1) + n + 8 := by omega
+  obtain ⟨s1, e1, hs1, hg1, hp1, ho1, hr1⟩ := plain_start n (extra + 1)
+  have e : extra + n + 9 = (extra + n + 3) + 6 := by omega
+  obtain ⟨s2, e2, _, hg2, _, hp2, ho2, hr2⟩ :=
+    add_probe_fired (extra + n + 3) 0 (.val 7) rfl s1 (by omega) hg1
+  have hst : st = s2 := by
+    show exec _ (step (extra + n + 9) _ (.start 0)) [.add 0 .probe] = s2
+    rw [e0, e1, exec_singleton, ← e0, e, e2]
+  have hprobes : st.probes = 3 :: List.replicate n 5 := by rw [hst, hp2, hp1]
+  refine ⟨by rw [hst, ho2, ho1], by rw [hst, hr2, hr1], hprobes, ?_, by rw [hst, hg2]⟩
+  intro p hp
+  rw [hprobes] at hp
+  rcases List.mem_cons.mp hp with rfl | hp
+  · omega
+  · rw [List.eq_of_mem_replicate hp]; omega
+
+/-- non-vacuity: four plain yields, exactly the fuel of the theorem -/
+example : (exec 13 (plainHeap 4) plainOps).probes = [3, 5, 5, 5, 5]
+    ∧ (exec 13 (plainHeap 4) plainOps).get 0 = { called := true, result := .val 7 } := by
+  decide +kernel
+
+/-- non-vacuity of the mixture (not covered by a ∀-theorem): Deferred, 5, failed Deferred, None -/
+example : (exec 40 { heap := #[{ called := true, result := .val 1 }, { called := true, result := .fail 3 }, {}]
+                     gens := #[{ items := [.yieldD 0, .yieldV 5, .yieldD 1, .yieldV 0], out := 2 }] }
+            [.start 0, .add 2 .probe]).probes = [3, 5, 6, 5, 5] := by
   decide +kernel
 
 /-! ### 4. Negative control: the counter is not trivially constant -/
